@@ -127,6 +127,8 @@ class AsyncLink:
             self.gw = m.AsyncSerialGateway("/dev/fake", reconnect_timeout=R, protocol_version=version)
         else:
             self.gw = m.AsyncTCPGateway("10.0.0.1", reconnect_timeout=R, protocol_version=version)
+            # a second, idle gateway object in the same process: gateways must not share mutable state
+            self.decoy = m.AsyncTCPGateway("10.0.0.2", reconnect_timeout=R, protocol_version=version)
         w = self.w
         self.gw.on_conn_made = lambda g: (w.events.append(("made", w.now)), w.note(("made", w.now)))
         self.gw.on_conn_lost = lambda g, e: (w.events.append(("lost", w.now, type(e).__name__ if e else None)),
